@@ -827,9 +827,10 @@ Proof.
                Hth E Hnd (eq_sym (app_nil_r heap)) Hpc Hc); simpl; auto.
       * unfold stable. intros (_ & Hz & _). lia.
       * intros k [].
-      * destruct (Hcells _ _ Hc) as (H1 & H2 & H3). split; [|split]; simpl; auto.
+      * destruct (Hcells _ _ Hc) as (H1 & H2 & H3). split; [|split]; simpl.
         -- intro Hp. congruence.
         -- intros _ Hv. congruence.
+        -- exact H3.
       * intros He Hun. destruct rest as [|parent rest'].
         -- apply panic_ok. exact Hd.
         -- eapply pop_to_parent_ok; eauto.
@@ -996,10 +997,13 @@ Proof.
   intros Hth H. unfold next_access in H. destruct (th_stack th) as [|fr rest] eqn:E.
   - destruct (th_work th) as [|[] ?]; discriminate.
   - pose proof (thread_ok_frames _ _ _ Hth) as Hf. rewrite E in Hf. inversion Hf as [|? ? Hfr _]; subst.
-    unfold frame_ok in Hfr. destruct (f_pc fr) eqn:Epc; try discriminate. inversion H; subst.
-    split.
-    + rewrite owned_frames_cons. rewrite Epc. simpl. auto.
-    + destruct Hfr as ((c & Hc & _ & _ & Hv & _) & _). eauto.
+    unfold frame_ok in Hfr. destruct (f_pc fr) eqn:Epc; try discriminate; inversion H; subst.
+    + split.
+      * rewrite owned_frames_cons. rewrite Epc. simpl. auto.
+      * destruct Hfr as ((c & Hc & _ & _ & Hv & _) & _). eauto.
+    + split.
+      * rewrite owned_frames_cons. rewrite Epc. simpl. auto.
+      * destruct Hfr as (c & Hc & _ & _ & Hv & _). eauto.
 Qed.
 
 Lemma access_read phs heap th p :
@@ -1012,7 +1016,7 @@ Proof.
     inversion Hw as [|? ? Hwi _]; subst. destruct Hwi as (c & Hc & _ & _ & Hv). eauto.
   - pose proof (thread_ok_frames _ _ _ Hth) as Hf. rewrite E in Hf. inversion Hf as [|? ? Hfr _]; subst.
     unfold frame_ok in Hfr. destruct (f_pc fr) eqn:Epc; try discriminate. inversion H; subst.
-    destruct Hfr as (c & Hc & _ & _ & Hv & _). eauto.
+    destruct Hfr as (c & Hc & _ & _ & (g & Hv & _) & _). exists c. split; auto. congruence.
 Qed.
 
 Lemma no_race_pair phs heap a b :
@@ -1063,12 +1067,12 @@ Qed.
 
 (* cells given up by the step are unpublished or finished; new cells are unpublished *)
 Lemma tstep_drop m phs heap th th' sh :
-  supported -> thread_ok phs heap th -> tstep tt m phs heap th = Some (th', sh) ->
+  thread_ok phs heap th -> tstep tt m phs heap th = Some (th', sh) ->
   (forall q c', (length phs <= q)%nat -> nth_error (sh_phs sh) q = Some c' -> ph_pub c' = false) /\
   (forall q c', In q (owned_frames (th_stack th)) -> ~ In q (owned_frames (th_stack th')) ->
                 nth_error (sh_phs sh) q = Some c' -> ph_pub c' = true -> stable c').
 Proof.
-  intros Hsup Hth H.
+  intros Hth H.
   assert (Hsame : forall evs m', sh = mkShared m' phs heap evs ->
             forall q c', (length phs <= q)%nat -> nth_error (sh_phs sh) q = Some c' -> ph_pub c' = false).
   { intros evs m' -> q c' Hq Hn. simpl in Hn. apply nth_error_Some_lt in Hn. lia. }
@@ -1082,6 +1086,10 @@ Proof.
            | context [if ?x then _ else _] => destruct x eqn:?
            end; try discriminate; inversion H; subst; clear H; eapply Hsame; reflexivity.
   - pose proof (thread_ok_frames _ _ _ Hth) as Hf. rewrite E in Hf. inversion Hf as [|? ? Hfr _]; subst.
+    assert (Hkeep : forall fr', f_ph fr' = f_ph fr -> f_pc fr' <> PLoad -> f_pc fr <> PLoad ->
+              forall q, In q (owned_frames (fr :: rest)) -> ~ In q (owned_frames (th_stack (with_stack th (fr' :: rest)))) -> False).
+    { intros fr' Hph Hpc' Hpc q Hq Hnq. apply Hnq. cbn [th_stack with_stack]. rewrite owned_frames_cons in *.
+      rewrite (pc_eqb_PLoad_false _ Hpc) in Hq. rewrite (pc_eqb_PLoad_false _ Hpc'). rewrite Hph. exact Hq. }
     unfold frame_ok in Hfr. destruct (f_pc fr) eqn:Epc.
     + (* Load *)
       destruct (lookup m (f_ty fr)) as [f|].
@@ -1094,41 +1102,60 @@ Proof.
            cbn [f_pc pc_eqb]. right. exact Hq.
     + (* Add *)
       destruct Hfr as (_ & c & Hc & _). rewrite Hc in H. inversion H; subst; clear H. split; [eapply Hupd; reflexivity|].
-      intros q c' Hq Hnq. exfalso. apply Hnq. cbn [th_stack with_stack]. rewrite owned_frames_cons in *. rewrite Epc in Hq. exact Hq.
+      intros q c' Hq Hnq. exfalso. eapply Hkeep; eauto; simpl; congruence.
     + (* LoadOrStore *)
       destruct Hfr as (_ & c & Hc & _ & _ & _ & Hpub). destruct (lookup m (f_ty fr)) as [f|].
       * inversion H; subst; clear H. split; [eapply Hsame; reflexivity|].
         intros q c' Hq Hnq Hn Hp. rewrite ret_owned in Hnq. rewrite owned_frames_cons in Hq. rewrite Epc in Hq.
         destruct Hq as [<-|Hq]; [|contradiction]. simpl in Hn. congruence.
       * rewrite Hc in H. inversion H; subst; clear H. split; [eapply Hupd; reflexivity|].
-        intros q c' Hq Hnq. exfalso. apply Hnq. cbn [th_stack with_stack]. rewrite owned_frames_cons in *. rewrite Epc in Hq. exact Hq.
+        intros q c' Hq Hnq. exfalso. eapply Hkeep; eauto; simpl; congruence.
     + (* generating *)
-      rewrite (Hsup (f_ty fr)) in H. destruct (f_todo fr) as [|k todo].
+      destruct (is_bad tt (f_ty fr)); [|destruct (f_todo fr) as [|k todo]].
       * inversion H; subst; clear H. split; [eapply Hsame; reflexivity|].
-        intros q c' Hq Hnq. exfalso. apply Hnq. cbn [th_stack with_stack]. rewrite owned_frames_cons in *. rewrite Epc in Hq. exact Hq.
+        intros q c' Hq Hnq. exfalso. eapply Hkeep; eauto; simpl; congruence.
+      * inversion H; subst; clear H. split; [eapply Hsame; reflexivity|].
+        intros q c' Hq Hnq. exfalso. eapply Hkeep; eauto; simpl; congruence.
       * inversion H; subst; clear H. split; [eapply Hsame; reflexivity|].
         intros q c' Hq Hnq. exfalso. apply Hnq. cbn [th_stack with_stack].
         rewrite (owned_frames_cons (mkFrame k 0 PLoad [] [])). exact Hq.
     + (* the plain write *)
       destruct Hfr as ((c & Hc & _) & _). rewrite Hc in H. inversion H; subst; clear H. split; [eapply Hupd; reflexivity|].
-      intros q c' Hq Hnq. exfalso. apply Hnq. cbn [th_stack with_stack]. rewrite owned_frames_cons in *. rewrite Epc in Hq. exact Hq.
+      intros q c' Hq Hnq. exfalso. eapply Hkeep; eauto; simpl; congruence.
     + (* Done *)
       destruct Hfr as (c & Hc & _). rewrite Hc in H. inversion H; subst; clear H. split; [eapply Hupd; reflexivity|].
-      intros q c' Hq Hnq. exfalso. apply Hnq. cbn [th_stack with_stack]. rewrite owned_frames_cons in *. rewrite Epc in Hq. exact Hq.
+      intros q c' Hq Hnq. exfalso. eapply Hkeep; eauto; simpl; congruence.
     + (* Store *)
-      destruct Hfr as (c & Hc & _ & Hcnt & Hvar & Hpub). rewrite Hc in H. destruct (ph_var c) as [f|] eqn:Ev; [|congruence].
+      destruct Hfr as (c & Hc & _ & Hcnt & (g & Hvar & _) & Hpub). rewrite Hc in H. rewrite Hvar in H.
       inversion H; subst; clear H. split; [eapply Hsame; reflexivity|].
       intros q c' Hq Hnq Hn Hp. rewrite ret_owned in Hnq. rewrite owned_frames_cons in Hq. rewrite Epc in Hq.
       destruct Hq as [<-|Hq]; [|contradiction]. simpl in Hn. assert (c' = c) by congruence. subst c'.
       repeat split; auto. congruence.
+    + (* Delete *)
+      inversion H; subst; clear H. split; [eapply Hsame; reflexivity|].
+      intros q c' Hq Hnq. exfalso. eapply Hkeep; eauto; simpl; congruence.
+    + (* the write of the error function *)
+      destruct Hfr as (c & Hc & _). rewrite Hc in H. inversion H; subst; clear H. split; [eapply Hupd; reflexivity|].
+      intros q c' Hq Hnq. exfalso. eapply Hkeep; eauto; simpl; congruence.
+    + (* Done on the failure path: the cell is given up, finished *)
+      destruct Hfr as (c & Hc & _ & Hcnt & Hvar & Hpub). rewrite Hc in H. inversion H; subst; clear H.
+      split; [eapply Hupd; reflexivity|].
+      intros q c' Hq Hnq Hn Hp. simpl in Hn. rewrite owned_frames_cons in Hq. rewrite Epc in Hq. cbn [pc_eqb] in Hq.
+      destruct Hq as [<-|Hq].
+      * rewrite nth_error_upd_eq in Hn by (eapply nth_error_Some_lt; eauto). inversion Hn; subst.
+        repeat split; simpl; auto; [lia | congruence].
+      * exfalso. apply Hnq. destruct rest as [|parent rest'].
+        -- simpl in Hq. contradiction.
+        -- cbn [th_stack with_stack]. rewrite owned_frames_cons. cbn [f_pc f_ph pc_eqb].
+           rewrite owned_frames_cons in Hq. destruct (pc_eqb (f_pc parent) PLoad) eqn:Ep; [right; exact Hq | exact Hq].
 Qed.
 
 Definition SupInv (s : state) : Prop :=
   forall p c, nth_error (st_phs s) p = Some c -> ph_pub c = true -> stable c \/ In p (owned (st_threads s)).
 
-Theorem step_SupInv s i s' : supported -> Inv s -> SupInv s -> step tt s i = Some s' -> SupInv s'.
+Theorem step_SupInv s i s' : Inv s -> SupInv s -> step tt s i = Some s' -> SupInv s'.
 Proof.
-  intros Hsup [Hm Hh Hc Ht Ho] HS H. unfold step in H.
+  intros [Hm Hh Hc Ht Ho] HS H. unfold step in H.
   destruct (nth_error (st_threads s) i) as [th|] eqn:Ei; [|discriminate].
   destruct (tstep tt (st_map s) (st_phs s) (st_heap s) th) as [[th' sh]|] eqn:Est; [|discriminate].
   inversion H; subst; clear H.
@@ -1139,7 +1166,7 @@ Proof.
   assert (Hnd : NoDup (owned_frames (th_stack th))).
   { apply NoDup_app_iff in Ho. destruct Ho as (_ & Ho & _). apply NoDup_app_iff in Ho. tauto. }
   pose proof (tstep_out _ _ _ Hm Hh Hc _ _ _ Hth Hnd Est) as [He Hfoot _ _ _ _ _ _].
-  destruct (tstep_drop _ _ _ _ _ _ Hsup Hth Est) as [Hnew Hdrop].
+  destruct (tstep_drop _ _ _ _ _ _ Hth Est) as [Hnew Hdrop].
   intros q c' Hq Hpub. rewrite owned_app. simpl. fold (owned l2).
   destruct (in_dec Nat.eq_dec q (owned_frames (th_stack th'))) as [Hin|Hnin].
   { right. apply in_or_app. right. apply in_or_app. left. exact Hin. }
@@ -1156,9 +1183,8 @@ Qed.
 Lemma init_SupInv jobs : SupInv (init jobs).
 Proof. intros [|p] c H; discriminate. Qed.
 
-Theorem reachable_SupInv jobs sched : supported -> SupInv (run tt (init jobs) sched).
+Theorem reachable_SupInv jobs sched : SupInv (run tt (init jobs) sched).
 Proof.
-  intro Hsup.
   assert (G : forall s, Inv s -> SupInv s -> SupInv (run tt s sched)).
   { induction sched as [|i r IH]; intros s HI HS; simpl; auto.
     destruct (step tt s i) eqn:E; auto. apply IH; [eapply step_Inv | eapply step_SupInv]; eauto. }
